@@ -77,7 +77,9 @@ impl Vector {
             return false;
         }
         for i in 0..self.len() {
-            if rel_diff(self[i], other[i]) > tol {
+            // rel_diff compares magnitudes only: values of opposite sign are never close
+            let opposite = (self[i] > 0. && other[i] < 0.) || (self[i] < 0. && other[i] > 0.);
+            if opposite || rel_diff(self[i], other[i]) > tol {
                 return false;
             }
         }
